@@ -173,3 +173,65 @@ Theorem gen_needMerge_monotone : forall u u' m m' : Z,
   0 <= u <= u' -> 0 <= m' <= m -> pcache_needMerge u m = true -> pcache_needMerge u' m' = true.
 Proof. exact GenTie_C06.needMerge_monotone. Qed.
 Print Assumptions gen_needMerge_monotone.
+
+(* ---- phase 2: further ties to the Gallina regenerated from the Go source (proofs/GenTie_C06.v) ---- *)
+From Coq Require Import ZArith NArith List Bool Lia.
+From Model Require Import C06_PCache.
+From Gen Require Import Gen_Funcs_prelude Gen_Funcs_pcache.
+Local Open Scope Z_scope.
+From stdpp Require Import gmap.
+From Coq Require Import String.
+From Proofs Require Import GenTie_Lib.
+Import ListNotations.
+From Proofs Require Import GenTie_C06.
+
+Theorem gen_tie_Refresh_accept_newer : forall (seq' : N) (e : entry) (r : rec) (txt : list N) (exp0 : tm),
+  match pcache_Refresh_accept_newer (option rec) tm (Some 0%Z) (fun _ => (r_time r, None)) None tm_after tm_zero
+          txt exp0 (Some (e_last e)) (e_prov e) (Z.of_N (e_seq e)) (e_dirty e) (Some r) (Z.of_N seq') with
+  | FFall (sq, ex, last, prov, dirty, _) | FContinue _ (sq, ex, last, prov, dirty, _) =>
+      let e' := apply_entry seq' (Some e) r in
+      sq = Z.of_N (e_seq e') /\ ex = e_expires e' /\ last = Some (e_last e') /\ prov = e_prov e' /\ dirty = e_dirty e'
+  | _ => False
+  end.
+Proof. exact GenTie_C06.tie_Refresh_accept_newer. Qed.
+Print Assumptions gen_tie_Refresh_accept_newer.
+
+Theorem gen_tie_Refresh_publish_step : forall (now ttl : Z) (seq' : N) (e : entry) (ou : option (option rec)),
+  match pcache_Refresh_publish_step tm tm_add tm_after tm_zero (Some now) (e_expires e)
+          (Z.of_N (e_seq e)) (e_dirty e) ttl (Z.of_N seq') with
+  | FFall (ex, dirty, tr) =>
+      settle true ttl now seq' e =
+        (if has_stmt "delete(pc.write, pid)" tr then None
+         else Some (Entry (e_prov e) ex (e_last e) (e_seq e) (e_upd e) dirty)) /\
+      upd_of true now seq' (Some e) ou =
+        (if has_stmt "updates[pid] = nil" tr then Some None
+         else if has_stmt "updates[pid] = apiToCacheInfo(cinfo.provider)" tr then Some (e_prov e)
+         else ou)
+  | _ => False
+  end.
+Proof. exact GenTie_C06.tie_Refresh_publish_step. Qed.
+Print Assumptions gen_tie_Refresh_publish_step.
+
+Theorem gen_tie_Refresh_merge_decision : forall (u m : nat),
+  match pcache_Refresh_merge_decision (Z.of_nat m) (Z.of_nat u) with
+  | FReturn _ tr => real_need_merge u m = false /\ has_stmt "pc.read.Store(&readOnly{m: read.m, u: updates})" tr = true
+  | FFall _ => real_need_merge u m = true
+  | _ => False
+  end.
+Proof. exact GenTie_C06.tie_Refresh_merge_decision. Qed.
+Print Assumptions gen_tie_Refresh_merge_decision.
+
+Theorem gen_tie_getReadOnly_lookup : forall (ru rm : gmap N (option rec)) (pid : N) (miss : option rec * option string),
+  match pcache_getReadOnly_lookup (option rec) miss
+          (default None (rm !! pid)) (default None (ru !! pid))
+          (bool_decide (is_Some (rm !! pid))) (bool_decide (is_Some (ru !! pid))) with
+  | FFall (rpi, _) =>
+      match view_of ru rm pid with
+      | Some v => rpi = v
+      | None => rpi = fst miss /\ snd miss = None           (* fetchMissing's answer *)
+      end
+  | FReturn _ _ => view_of ru rm pid = None /\ snd miss <> None
+  | _ => False
+  end.
+Proof. exact GenTie_C06.tie_getReadOnly_lookup. Qed.
+Print Assumptions gen_tie_getReadOnly_lookup.
